@@ -108,7 +108,7 @@ impl World {
                     if self.swapped[i] { p.nodes[i].alt.clone().unwrap() } else { p.nodes[i].ex.clone() };
                 Some(Expect::Unit)
             }
-            Op::LruCap(_) | Op::LruTrig | Op::Cancel | Op::RoundTrip => Some(Expect::Unit),
+            Op::LruCap(_) | Op::LruTrig | Op::Cancel | Op::RoundTrip | Op::Prefill(_) | Op::Reclone => Some(Expect::Unit),
             _ => None,
         }
     }
@@ -141,6 +141,7 @@ impl World {
                 None => ABSENT,
             }),
             Op::QInt(_, d) => Ok(*d),
+            Op::NewInput(v) => Ok(*v),
             _ => return Expect::Unit,
         };
         match r {
